@@ -36,6 +36,11 @@ reg(Prop('C07', [g(gen.gen_C07)], 'positions and seeks'))
 reg(Prop('C08', [g(gen.gen_C08)], 'bulk copies with continuations'))
 reg(Prop('C09', [g(gen.gen_C09)], 'truncated strict streams vs zero-extended'))
 reg(Prop('C12', [g(gen.gen_C12)], 'io::Read / io::Write views'))
+reg(Prop('C11', [g(gen.gen_C11)], 'WordAdapter over fault-injecting Read/Write objects and Cursor'))
+reg(Prop('C13', [g(gen.gen_C13)], 'in-memory word streams vs array+cursor'))
+reg(Prop('C14', [g(gen.gen_C14)], 'counting / tracing wrappers vs bare streams'))
+reg(Prop('C17', [g(gen.gen_C17)], 'zig-zag maps, all widths'))
+reg(Prop('C18', [g(gen.gen_C18)], 'byte-level VByte vs bit-stream VByte and the published code'))
 
 
 def gen_lines(prop, tier, seed, ctx):
